@@ -88,6 +88,8 @@ def size_scripts(seed, L, big=True):
     for rel in (1, 2, 1000):
         out.append([{'op': 'open'}, {'op': 'postdecl', 's': 1, 'rel': rel}, {'op': 'poll', 's': 1}])
     out.append([{'op': 'open'}, {'op': 'posttrunc', 's': 1}, {'op': 'poll', 's': 1}])
+    out.append([{'op': 'open'}, {'op': 'postnolen', 's': 1, 'declared': 0}, {'op': 'poll', 's': 1}])
+    out.append([{'op': 'open'}, {'op': 'postnolen', 's': 1, 'declared': 'absent'}, {'op': 'poll', 's': 1}])
     out.append([{'op': 'open'}, {'op': 'postlong', 's': 1}, {'op': 'post', 's': 1, 'body': ['m2']}])
     return out
 
